@@ -170,7 +170,7 @@ Theorem reasm_fold_alloc : forall fs st,
                    a + len (r_buf st') <= 2 * frags_bytes fs + 12 * len fs + len (r_buf st)).
 Proof.
   induction fs as [|f rest IH]; intros st; cbn [reasm_fold frags_bytes].
-  - apply wp_ret. exists st. lens.
+  - apply wp_ret. exists st. split; [reflexivity|]. Show.
   - apply wp_bind. eapply wp_weaken; [apply reasm_step_spec|]. cbv beta.
     intros r t a (o & st' & -> & Ha & Ht & Hal & Htl). cbv beta iota.
     eapply wp_weaken; [apply IH|]. cbv beta.
